@@ -71,6 +71,34 @@ func NewVerifAggSenderC02(logger *log.Logger, storage db.AggSenderStorage, clien
 	return &VerifAggSenderC02{Sender: a, base: base, notifier: notifier}
 }
 
+// NewVerifAggSenderFEPC02 is NewVerifAggSenderC02 for the aggchain-prover flow: the REAL AggchainProverFlow
+// (flows.NewAggchainProverFlow around the real base flow) with caller-supplied prover client, GER querier and
+// optimistic-mode querier.
+func NewVerifAggSenderFEPC02(logger *log.Logger, storage db.AggSenderStorage, client agglayer.AgglayerClientInterface,
+	l2Syncer types.L2BridgeSyncer, l1Querier types.L1InfoTreeDataQuerier, lerQuerier types.LERQuerier,
+	signer signertypes.Signer, prover types.AggchainProofClientInterface, gerQuerier types.GERQuerier,
+	optimistic types.OptimisticModeQuerier, retryCertAfterInError bool, startL2Block uint64) *VerifAggSenderC02 {
+	bridgeQuerier := query.NewBridgeDataQuerier(logger, l2Syncer, time.Second)
+	base := flows.NewBaseFlow(logger, bridgeQuerier, storage, l1Querier, lerQuerier,
+		flows.NewBaseFlowConfig(0, startL2Block, false))
+	flow := flows.NewAggchainProverFlow(logger, flows.NewAggchainProverFlowConfigDefault(), base, prover, storage,
+		l1Querier, bridgeQuerier, gerQuerier, nil, signer, optimistic, nil)
+	notifier := &VerifEpochNotifierC02{ch: make(chan types.EpochEvent, 1)}
+	a := &AggSender{
+		log:               logger,
+		storage:           storage,
+		aggLayerClient:    client,
+		flow:              flow,
+		epochNotifier:     notifier,
+		cfg:               config.Config{MaxRetriesStoreCertificate: 1, RetryCertAfterInError: retryCertAfterInError},
+		rateLimiter:       aggkitcommon.NewRateLimit(aggkitcommon.RateLimitConfig{}),
+		status:            &types.AggsenderStatus{Status: types.StatusNone},
+		l2OriginNetwork:   l2Syncer.OriginNetwork(),
+		certStatusChecker: statuschecker.NewCertStatusChecker(logger, storage, client, l2Syncer.OriginNetwork()),
+	}
+	return &VerifAggSenderC02{Sender: a, base: base, notifier: notifier}
+}
+
 // VerifInitialStatusC02 is what Start does before entering the loop (minus the compatibility check).
 func (v *VerifAggSenderC02) VerifInitialStatusC02(ctx context.Context) error {
 	v.Sender.certStatusChecker.CheckInitialStatus(ctx, time.Millisecond, v.Sender.status)
